@@ -149,6 +149,8 @@ public:
         mode_ = bytes_.byte() % 3;
         script_pos_ = 0;
         grant_rr_ = 0; // no scheduler state may survive from one case to the next
+        leash_holder_ = leashed_ = nullptr;
+        leash_steps_ = 0;
         run_len_ = 0;
         fair_rr_ = 0;
         if (use_script) { mode_ = 3; }
@@ -246,6 +248,35 @@ public:
         }
         std::vector<LThread*> c = candidates(self);
         LThread* next = self;
+        if (leashed_ == self && leash_holder_ != nullptr) {
+            // a worker stepped this background thread: after the granted number of yield points (or when it goes to sleep / blocks)
+            // the baton goes straight back, so the worker acts in the middle of the background thread's iteration
+            const bool back = access == yv::Y_SLEEP || must_switch || leash_steps_ == 0 || --leash_steps_ == 0;
+            if (back) {
+                LThread* h = leash_holder_;
+                leash_holder_ = leashed_ = nullptr;
+                bool can = false;
+                for (auto* l : c) {
+                    if (l == h) { can = true; }
+                }
+                if (can) {
+                    ++switches;
+                    run_len_ = 0;
+                    current_ = h;
+                    h->cv.notify_one();
+                    self->cv.wait(lk, [&] { return current_ == self || released_.load(); });
+                    if (self->state == TState::Blocked) { self->state = TState::Runnable; }
+                    if (access == yv::Y_STORE || access == yv::Y_CAS) { ++writes_performed_; }
+                    self->last_writes = writes_performed_;
+                    return;
+                }
+            } else {
+                // keep running under the leash: no policy decision at this yield point
+                if (access == yv::Y_STORE || access == yv::Y_CAS) { ++writes_performed_; }
+                self->last_writes = writes_performed_;
+                return;
+            }
+        }
         if (must_switch) {
             if (c.empty()) {
                 // nobody else can run.  If nothing can ever change the state this thread waits for: deadlock.
@@ -406,6 +437,28 @@ public:
         self->cv.wait(lk, [&] { return current_ == self || released_.load(); });
         self->last_writes = writes_performed_;
     }
+    // called by a logical thread: let the background thread of this kind pass `steps` yield points, then take the baton back
+    // (earlier if it goes to sleep or blocks).  Interleaves a worker with the MIDDLE of an epoch / gc iteration on purpose.
+    void grant_background_steps(int kind, std::uint64_t steps) noexcept {
+        LThread* self = tl_self;
+        if (self == nullptr || tl_noyield != 0 || released_.load() || steps == 0) { return; }
+        std::unique_lock<std::mutex> lk(mu_);
+        if (!active_) { return; }
+        ++steps_dummy_;
+        LThread* next = nullptr;
+        for (auto* b : background_) {
+            if (b->bg_kind == kind && (b->state == TState::Runnable || (b->state == TState::Blocked && writes_performed_ > b->writes_seen))) { next = b; }
+        }
+        if (next == nullptr) { return; }
+        leash_holder_ = self;
+        leashed_ = next;
+        leash_steps_ = steps;
+        ++switches;
+        current_ = next;
+        next->cv.notify_one();
+        self->cv.wait(lk, [&] { return current_ == self || released_.load(); });
+        self->last_writes = writes_performed_;
+    }
     bool is_released() const { return released_.load(); }
     std::size_t script_fired() const { return script_pos_; } // scripted switches consumed in the last run
     std::size_t yields_of(std::size_t worker) const { return workers_[worker]->lt.yields; }
@@ -437,6 +490,10 @@ private:
     std::uint64_t next_preempt_{0};
     std::uint64_t change_points_[3]{0, 0, 0};
     std::uint64_t bg_iterations_[4]{0, 0, 0, 0};
+    std::uint64_t steps_dummy_{0};
+    LThread* leash_holder_{nullptr}; // the worker that granted a background thread a bounded number of steps
+    LThread* leashed_{nullptr};      // that background thread
+    std::uint64_t leash_steps_{0};   // yield points it may still pass before the baton goes back
     std::size_t grant_rr_{0};
     std::size_t script_pos_{0};
     std::uint64_t run_len_{0};
